@@ -8,20 +8,44 @@ import (
 	"errors"
 	"io"
 	"net/http"
+	"net/url"
+	"time"
+
+	"github.com/tilinna/clock"
 )
 
-// verifC16Upstream: a symbolic fault script per HTTP attempt {accepted, connection error,
-// 503}; an attempt may coincide with the end of the flush interval (the flush context is
-// cancelled while the request is in flight). A batch is identified by its request body.
+// verifStepClock: the tilinna mock clock, except that a sleep takes no wall time - creating a
+// timer moves the clock to its deadline (and so fires it). The same code runs natively.
+type verifStepClock struct{ *clock.Mock }
+
+func (c verifStepClock) NewTimer(d time.Duration) *clock.Timer {
+	t := c.Mock.NewTimer(d)
+	c.Mock.Add(d)
+	return t
+}
+
+func verifNewStepClock() verifStepClock {
+	return verifStepClock{clock.NewMock(time.Unix(1700000000, 0))}
+}
+
+// verifC16Upstream: a symbolic fault script per HTTP attempt {accepted, connection error, 503,
+// per-attempt client timeout, 429 with Retry-After (where enabled)}; every attempt takes a
+// symbolic time (0..40 s on the mock clock); an attempt may coincide with shutdown (the
+// context is cancelled while the request is in flight). A batch is identified by its body.
 type verifC16Upstream struct {
-	attempts  int
-	max       int
-	failed    bool
-	okCount   int
-	batchOK   map[string]int
-	cancel    context.CancelFunc
-	cancelled bool
-	okStatus  int
+	attempts   int
+	max        int
+	failed     bool
+	okCount    int
+	batchOK    map[string]int
+	cancel     context.CancelFunc
+	cancelled  bool
+	okStatus   int
+	retryAfter bool
+	clk        verifStepClock
+	window     time.Duration        // the backend's max-request-elapsed-time
+	first      map[string]time.Time // start of the first attempt per batch
+	expired    map[string]bool      // an attempt that began after the window failed: no retry may follow
 }
 
 func (u *verifC16Upstream) RoundTrip(req *http.Request) (*http.Response, error) {
@@ -35,23 +59,45 @@ func (u *verifC16Upstream) RoundTrip(req *http.Request) (*http.Response, error) 
 		}
 	}
 	if u.batchOK == nil {
-		u.batchOK = map[string]int{}
+		u.batchOK, u.first, u.expired = map[string]int{}, map[string]time.Time{}, map[string]bool{}
 	}
 	u.batchOK[key] += 0
+	verifAssert(!u.expired[key], "a batch is retried although its retry window had ended before the previous attempt failed")
+	start := u.clk.Now()
+	if _, ok := u.first[key]; !ok {
+		u.first[key] = start
+	}
+	u.clk.Add(time.Duration(nondetInt64In(0, 40)) * time.Second) // latency
 	if u.cancel != nil && !u.cancelled && nondetBool() {
 		u.cancelled = true
 		u.cancel()
 	}
-	switch nondetIntIn(0, 2) {
+	hi := 3
+	if u.retryAfter {
+		hi = 4
+	}
+	outcome := nondetIntIn(0, hi)
+	if outcome != 0 {
+		u.failed = true
+		if start.Sub(u.first[key]) > u.window {
+			u.expired[key] = true
+		}
+	}
+	switch outcome {
 	case 0:
 		u.okCount++
 		u.batchOK[key]++
 		return &http.Response{StatusCode: u.okStatus, Body: io.NopCloser(bytes.NewReader(nil)), Header: http.Header{}}, nil
 	case 1:
-		u.failed = true
 		return nil, errors.New("connection reset")
+	case 3:
+		// what http.Client.Do returns when its own per-request timeout fires
+		return nil, &url.Error{Op: "Post", URL: req.URL.String(), Err: context.DeadlineExceeded}
+	case 4:
+		h := http.Header{}
+		h.Set("Retry-After", "5")
+		return &http.Response{StatusCode: 429, Body: io.NopCloser(bytes.NewReader(nil)), Header: h}, nil
 	}
-	u.failed = true
 	return &http.Response{StatusCode: 503, Body: io.NopCloser(bytes.NewReader(nil)), Header: http.Header{}}, nil
 }
 
